@@ -181,7 +181,7 @@ func (k Keeper) PlaceDutchAuctionBid(ctx sdk.Context, auctionID uint64, bidder s
 			}
 			//Update Collector Data for CMST
 			// Updating fees data in collector
-			err = k.collector.SetNetFeeCollectedData(ctx, auctionData.AppId, auctionData.CollateralAssetId, liquidationPenalty.Amount)
+			err = k.collector.SetNetFeeCollectedData(ctx, auctionData.AppId, auctionData.DebtAssetId, liquidationPenalty.Amount)
 			if err != nil {
 				return bidId, err
 			}
